@@ -186,13 +186,15 @@ theorem C02_solo_is_source (g : G K V) (op : COp K V) (T : Deep.Twin K V) (hT : 
 a thread of M5 that runs the call alone — one per step: a call on the underlying map with its key, a clock read or a
 setting access outside a closure that runs under a bucket lock, a traversal visit, an evicted-callback invocation —
 are exactly, in order, the actions the interpreter records when it runs the method body printed from the working tree
-(either file).  A closure handed to `Compute` is one action; a call that the source splits differently (a second map
+(either file) — and that traced run ends in the state and result of the sequential step.  A closure handed to `Compute` is one action; a call that the source splits differently (a second map
 call, a clock read moved out of a closure) no longer matches. -/
 theorem C02_steps_are_source_actions (g : G K V) (op : COp K V) :
-    (∃ cs, DeepTrace.soloTrace g L.init (Proofs.ConcCacheSolo.start op :: cs) =
-      (Deep.deepTrace Deep.twinMapTr (view g) (toSpec op)).map (·.2.2)) ∧
-    (∃ cs, DeepTrace.soloTrace g L.init (Proofs.ConcCacheSolo.start op :: cs) =
-      (Deep.deepTrace Deep.twinMapOfTr (view g) (toSpec op)).map (·.2.2)) :=
+    (∃ cs t, DeepTrace.soloTrace g L.init (Proofs.ConcCacheSolo.start op :: cs) = some t ∧
+      Deep.deepTrace Deep.twinMapTr (view g) (toSpec op) =
+        some ((Cache.step (view g) (toSpec op)).1, (Cache.step (view g) (toSpec op)).2, t)) ∧
+    (∃ cs t, DeepTrace.soloTrace g L.init (Proofs.ConcCacheSolo.start op :: cs) = some t ∧
+      Deep.deepTrace Deep.twinMapOfTr (view g) (toSpec op) =
+        some ((Cache.step (view g) (toSpec op)).1, (Cache.step (view g) (toSpec op)).2, t)) :=
   ⟨DeepTrace.trace_eq g op, DeepTraceOf.trace_eq g op⟩
 
 end Props.C02
